@@ -4495,4 +4495,128 @@ theorem vinv_init : VInv VWorld.init := by
   · intro i _; rfl
 
 
+/-! ### bookkeeping lemmas about the slot-wise pickling helpers (no claim about the real `__reduce__` methods) -/
+
+/-- Objects pickled slot by slot (`Thermo`, `Chemical`, reactions): every slot named in the recipe
+has the same value after the round trip, and no other slot is set.  (So the round trip preserves the
+observable state exactly when that state is a function of the listed slots — which the oracle checks
+on the real `Reaction`, `ParallelReaction`, `Chemical` and `Thermo` objects.) -/
+theorem slot_pickle_roundtrip {V : Type} (slots : List Nat) (obj : Nat → Option V) (k : Nat) :
+    (k ∈ slots → newFromState (getState slots obj) k = obj k) ∧
+    (k ∉ slots → newFromState (getState slots obj) k = none) := by
+  induction slots with
+  | nil => simp [newFromState, getState]
+  | cons x xs ih =>
+    by_cases hk : k = x
+    · subst hk; simp [newFromState, getState, List.lookup]
+    · have hne : (k == x) = false := by simp [hk]
+      simp only [newFromState, getState, List.map_cons, List.lookup, hne] at ih ⊢
+      simp [hk]
+      exact ih
+
+/-- `Chemical.__reduce__` = `unpickle_chemical(get_chemical_data(self))`: every slot reads the same through
+`getattr(chemical, slot, None)` after the round trip (user-set data, locked state, synonyms and aliases are slots). -/
+theorem chemical_pickle_roundtrip {V : Type} (slots : List Nat) (obj : Nat → Option (Option V)) (k : Nat)
+    (hk : k ∈ slots) : observeD (chemFromData (chemGetData slots obj)) k = observeD obj k := by
+  induction slots with
+  | nil => simp at hk
+  | cons x xs ih =>
+    by_cases hx : k = x
+    · subst hx; simp [observeD, chemFromData, chemGetData, List.lookup]
+    · have hne : (k == x) = false := by simp [hx]
+      have hk' : k ∈ xs := by simpa [hx] using hk
+      simp only [observeD, chemFromData, chemGetData, List.map_cons, List.lookup, hne] at ih ⊢
+      exact ih hk'
+
+/-- `CompiledChemicals` (hence `Thermo`, which holds one in a slot): chemicals, the names they answer to and the
+chemical groups are the same after the round trip, so every name — ID, synonym, alias, group — is looked up to
+the same position(s).  (The groups are part of the pickle only with fix C13-11.) -/
+theorem compiled_chemicals_pickle_roundtrip (x : CChems) :
+    CChems.rebuild x.pickleArgs = x ∧ ∀ name, (CChems.rebuild x.pickleArgs).index name = x.index name :=
+  ⟨rfl, fun _ => rfl⟩
+
+/-- Objects pickled through their slots by the default protocol or by `cucumber` (`Reaction`,
+`ParallelReaction`, `Thermo`): with the recipe = all slots, the rebuilt object has every slot as before, set
+or unset. -/
+theorem slotted_pickle_roundtrip {V : Type} (slots : List Nat) (obj : Nat → Option V)
+    (hall : ∀ k, k ∉ slots → obj k = none) : newFromState (getState slots obj) = obj := by
+  funext k
+  by_cases hk : k ∈ slots
+  · exact (slot_pickle_roundtrip slots obj k).1 hk
+  · rw [(slot_pickle_roundtrip slots obj k).2 hk, hall k hk]
+
+
+/-! ### `copy_like` never re-binds the target to objects of the source -/
+
+theorem target_fp_imolUpd {w w1 : World} {t s : Nat} (h : ImolUpd w w1 (w.strs t).imol) :
+    ∀ x ∈ (w1.tcCopyLike t s).fp t, x ∈ w.fp t ∨ w.next ≤ x := by
+  intro x hx
+  simp only [World.fp, World.tcCopyLike, setTc_strs, h.strs, List.mem_cons] at hx
+  rcases hx with rfl | rfl | hx
+  · exact Or.inl (mem_fp_tc w t)
+  · exact Or.inl (mem_fp_cf w t)
+  · rw [fpImol_of_agree (w := w1) (by simp) (by simp)] at hx
+    rcases h.fpImol_sub _ x hx with h | h | h
+    · exact Or.inl (by simp [World.fp, h])
+    · exact Or.inl (by simp [World.fp, h])
+    · exact Or.inr h.1
+
+theorem copyLike_target_fp (w : World) (t s : Nat) (w' : World) (hsc : Scoped w) (ht : t < w.nS) (hs : s < w.nS)
+    (h : w.copyLike t s = .ok w') : ∀ x ∈ w'.fp t, x ∈ w.fp t ∨ w.next ≤ x := by
+  have _ := hs
+  unfold World.copyLike at h
+  simp only at h
+  split at h
+  · cases h
+  · cases hmt : w.imols (w.strs t).imol with
+    | chem tph trow =>
+      cases hms : w.imols (w.strs s).imol with
+      | chem sph srow =>
+        simp only [hmt, hms] at h
+        split at h
+        · cases h; exact target_fp_imolUpd (ImolUpd.refl _ _)
+        · obtain ⟨w1, h1, rfl⟩ := ofExcept_bind_ok _ _ _ h
+          exact target_fp_imolUpd (imolUpd_chemCopyLike hmt _ _ _ _ _ _ h1)
+      | mat qs sa =>
+        simp only [hmt, hms] at h
+        split at h
+        · next q =>
+          obtain ⟨w1, h1, rfl⟩ := ofExcept_bind_ok _ _ _ h
+          have h0 : ImolUpd w (w.setPh tph q) (w.strs t).imol :=
+            ImolUpd.of_struct ((writes_setPh w tph q).mono (by
+              intro x _ hx; subst hx; simp [World.fpImol, hmt]) (fun _ _ h => h)) rfl rfl rfl rfl rfl rfl
+          have hmt' : (w.setPh tph q).imols (w.strs t).imol = .chem tph trow := by simpa using hmt
+          exact target_fp_imolUpd (h0.trans (imolUpd_chemCopyLike hmt' _ _ _ _ _ _ h1))
+        · obtain ⟨w3, h3, rfl⟩ := ofExcept_bind_ok _ _ _ h
+          have hB := blankMat_spec w (normPh qs)
+          generalize hb : w.blankMat (normPh qs) = b at h3 hB
+          obtain ⟨w1, im⟩ := b
+          simp only at h3 hB
+          have hU := matCopyFromMat_spec _ _ _ _ _ _ _ h3
+          have hfresh2 : ∀ x ∈ (w1.setStr t { w.strs t with imol := im }).fpImol im, w.next ≤ x ∧ x < w1.next := by
+            intro x hx
+            rw [fpImol_of_agree (w := w1) (by simp) (by simp)] at hx
+            exact hB.fresh x hx
+          have hstr3 : w3.strs = upd w.strs t { w.strs t with imol := im } := by rw [hU.strs]; simp [hB.strs]
+          intro x hx
+          simp only [World.fp, World.tcCopyLike, setTc_strs, hstr3, List.mem_cons, upd_same] at hx
+          rcases hx with rfl | rfl | hx
+          · exact Or.inl (mem_fp_tc w t)
+          · exact Or.inl (mem_fp_cf w t)
+          · rw [fpImol_of_agree (w := w3) (by simp) (by simp)] at hx
+            rcases hU.fpImol_sub im x hx with h | h | h
+            · exact Or.inr (hfresh2 x h).1
+            · exact Or.inr (hfresh2 x h).1
+            · simp at h; have := hB.writes.next; exact Or.inr (by omega)
+    | mat ps ta =>
+      cases hms : w.imols (w.strs s).imol with
+      | chem sph srow =>
+        simp only [hmt, hms] at h
+        obtain ⟨w1, h1, rfl⟩ := ofExcept_bind_ok _ _ _ h
+        exact target_fp_imolUpd (matCopyFromChem_spec _ _ _ _ _ _ _ _ h1)
+      | mat qs sa =>
+        simp only [hmt, hms] at h
+        obtain ⟨w1, h1, rfl⟩ := ofExcept_bind_ok _ _ _ h
+        exact target_fp_imolUpd (matCopyFromMat_spec _ _ _ _ _ _ _ h1)
+
 end ThermoVerif.Links
